@@ -34,6 +34,17 @@ func extOption(s string) gtree.Option {
 	return extOptions[s]
 }
 
+// bfOptions: the two branch-format options, or NO option at all when the first field is "D"
+func bfOptions(ld, li, md, mi string) []gtree.Option {
+	if ld == "D" {
+		return nil
+	}
+	return []gtree.Option{
+		gtree.WithBranchFormatLastNode(unhex(ld), unhex(li)),
+		gtree.WithBranchFormatIntermedialNode(unhex(md), unhex(mi)),
+	}
+}
+
 func plusList(s string) []string {
 	if s == "-" {
 		return nil
@@ -102,10 +113,7 @@ func runHist(spec string, massive bool) string {
 			}
 			outs = append(outs, classify(err, -1)+" "+chunksOf(f[2], f[3] == "1", w.Bytes()))
 		case "W", "Wd":
-			opts := []gtree.Option{
-				gtree.WithBranchFormatLastNode(unhex(f[2]), unhex(f[3])),
-				gtree.WithBranchFormatIntermedialNode(unhex(f[4]), unhex(f[5])),
-			}
+			opts := bfOptions(f[2], f[3], f[4], f[5])
 			opts = append(opts, mopt...)
 			opts = append(opts, encOpt(f, 7)...)
 			fail := parseFail(f[6])
@@ -130,10 +138,7 @@ func runHist(spec string, massive bool) string {
 			}
 			outs = append(outs, classify(err, fail)+" "+visitsStr(vs))
 		case "I", "Id":
-			opts := []gtree.Option{
-				gtree.WithBranchFormatLastNode(unhex(f[2]), unhex(f[3])),
-				gtree.WithBranchFormatIntermedialNode(unhex(f[4]), unhex(f[5])),
-			}
+			opts := bfOptions(f[2], f[3], f[4], f[5])
 			brk := optInt(f[6])
 			var vs []visitRec
 			var ierr error
@@ -168,9 +173,7 @@ func runHist(spec string, massive bool) string {
 				}
 				return nil
 			}
-			err := gtree.WalkFromRoot(node(f[1]), cb,
-				gtree.WithBranchFormatLastNode(unhex(f[3]), unhex(f[4])),
-				gtree.WithBranchFormatIntermedialNode(unhex(f[5]), unhex(f[6])))
+			err := gtree.WalkFromRoot(node(f[1]), cb, bfOptions(f[3], f[4], f[5], f[6])...)
 			outs = append(outs, classify(err, -1)+" "+visitsStr(vs))
 		case "Ob":
 			// Ob,h,BUDGET : OutputFromRoot into a writer that fails after BUDGET bytes (interference only)
@@ -194,10 +197,7 @@ func runHist(spec string, massive bool) string {
 			outs = append(outs, "k")
 		case "Ic":
 			// Ic,K,h,LD,LI,MD,MI : obtain the iterator now, consume it later (Ir)
-			opts := []gtree.Option{
-				gtree.WithBranchFormatLastNode(unhex(f[3]), unhex(f[4])),
-				gtree.WithBranchFormatIntermedialNode(unhex(f[5]), unhex(f[6])),
-			}
+			opts := bfOptions(f[3], f[4], f[5], f[6])
 			if iters == nil {
 				iters = map[string]iter.Seq2[*gtree.WalkerNode, error]{}
 			}
@@ -238,10 +238,7 @@ func runHist(spec string, massive bool) string {
 			outs = append(outs, classify(err, -1)+" "+chunksOf(f[1], f[2] == "1", w.Bytes()))
 		case "w", "wd":
 			// w,LD,LI,MD,MI,FAIL,DOC
-			opts := []gtree.Option{
-				gtree.WithBranchFormatLastNode(unhex(f[1]), unhex(f[2])),
-				gtree.WithBranchFormatIntermedialNode(unhex(f[3]), unhex(f[4])),
-			}
+			opts := bfOptions(f[1], f[2], f[3], f[4])
 			opts = append(opts, mopt...)
 			opts = append(opts, encOpt(f, 7)...)
 			fail := parseFail(f[5])
